@@ -267,7 +267,7 @@ func genC02Base(t *rapid.T) c02Case {
 	c.Zone = rapid.IntRange(0, len(zones)-1).Draw(t, "zone")
 	c.Mono = rapid.Bool().Draw(t, "mono")
 	if !c.NilParam && rapid.IntRange(0, 7).Draw(t, "viaQ") == 0 {
-		c.Via = rapid.IntRange(1, 4).Draw(t, "via")
+		c.Via = rapid.IntRange(1, 6).Draw(t, "via")
 	}
 	if !c.NilParam && rapid.IntRange(0, 2).Draw(t, "skewQ") == 0 {
 		c.Skew = uint64(rapid.IntRange(1, 10).Draw(t, "skew")) // an admissible window: generation must not look at it
